@@ -73,6 +73,9 @@ struct Case {
     no_tls_config: bool,
     /// ServerTlsConfig::ignore_client_order (must not influence authentication)
     ignore_order: bool,
+    /// Endpoint::origin(..) set BEFORE tls_config (must not influence the name the certificate is
+    /// checked against): (origin uri, uri host used for the endpoint when no domain_name is set)
+    origin: Option<(&'static str, &'static str)>,
     chop: usize,
 }
 
@@ -205,7 +208,14 @@ fn body(c: &Case, ch: &Chooser) -> Outcome {
             Domain::MatchingViaDomainName => "https://uri-host.test:443",
             _ => "https://server.test:443",
         };
+        let uri = match c.origin {
+            Some((_, host)) => host,
+            None => uri,
+        };
         let mut ep = Endpoint::from_static(uri);
+        if let Some((origin, _)) = c.origin {
+            ep = ep.origin(origin.parse().unwrap());
+        }
         if !c.no_tls_config {
             let mut tls = ClientTlsConfig::new().assume_http2(c.assume_http2);
             match c.roots {
@@ -247,8 +257,15 @@ fn body(c: &Case, ch: &Chooser) -> Outcome {
         run.handler_calls = seen.calls.load(Ordering::SeqCst);
         run.peer = seen.peer.lock().unwrap().clone();
         run.connector_invocations = st.invocations.load(Ordering::SeqCst);
-        if let Some(s) = st.conns.lock().unwrap().first() {
-            run.first_client_bytes = s.first_bytes.lock().unwrap().clone();
+        // every connection the client ever opened (a silent retry in plaintext would be a second one)
+        for s in st.conns.lock().unwrap().iter() {
+            let fb = s.first_bytes.lock().unwrap().clone();
+            if run.first_client_bytes.is_empty() {
+                run.first_client_bytes = fb.clone();
+            }
+            if !fb.is_empty() && !(fb[0] == 0x16 && fb.get(1) == Some(&0x03)) {
+                run.first_client_bytes = fb; // keep the offending one for the oracle below
+            }
         }
         run
     });
@@ -276,7 +293,11 @@ fn body(c: &Case, ch: &Chooser) -> Outcome {
     }
     // ---- reference
     let chain_ok = c.roots == Roots::RightCa;
-    let name_ok = c.domain != Domain::NonMatching;
+    let name_ok = match c.origin {
+        // no domain_name in these cases: the URI host decides, whatever the origin says
+        Some((_, host)) => host.contains("server.test"),
+        None => c.domain != Domain::NonMatching,
+    };
     // ALPN: Some(true) must pass, Some(false) must fail, None = open
     let alpn_ok: Option<bool> = match (c.alpn, c.assume_http2) {
         (Alpn::H2, _) => Some(true),
@@ -354,9 +375,9 @@ fn cases(tier: Tier) -> Vec<Case> {
                             n += 1;
                             let chops: Vec<usize> = if tier == Tier::Thorough { vec![0, 2, 3] } else { vec![[0, 2, 3][n % 3]] };
                             for chop in chops {
-                                out.push(Case { roots, domain, alpn, assume_http2, auth, ident, no_tls_config: false, ignore_order: false, chop });
+                                out.push(Case { roots, domain, alpn, assume_http2, auth, ident, no_tls_config: false, ignore_order: false, origin: None, chop });
                                 if alpn == Alpn::H2 && roots == Roots::RightCa && domain != Domain::NonMatching {
-                                    out.push(Case { roots, domain, alpn, assume_http2, auth, ident, no_tls_config: false, ignore_order: true, chop });
+                                    out.push(Case { roots, domain, alpn, assume_http2, auth, ident, no_tls_config: false, ignore_order: true, origin: None, chop });
                                 }
                             }
                         }
@@ -365,8 +386,14 @@ fn cases(tier: Tier) -> Vec<Case> {
             }
         }
     }
+    // an origin override set before tls_config must not become the verified name
+    for (origin, host) in [("https://origin.test", "https://server.test:443"), ("https://server.test", "https://uri-host.test:443"), ("https://server.test", "https://server.test:443")] {
+        for auth in [ClientAuth::NotRequested, ClientAuth::Required] {
+            out.push(Case { roots: Roots::RightCa, domain: Domain::FromUri, alpn: Alpn::H2, assume_http2: false, auth, ident: Ident::FromRightCa, no_tls_config: false, ignore_order: false, origin: Some((origin, host)), chop: 0 });
+        }
+    }
     for alpn in [Alpn::H2, Alpn::NoneOffered] {
-        out.push(Case { roots: Roots::None, domain: Domain::FromUri, alpn, assume_http2: false, auth: ClientAuth::NotRequested, ident: Ident::None, no_tls_config: true, ignore_order: false, chop: 0 });
+        out.push(Case { roots: Roots::None, domain: Domain::FromUri, alpn, assume_http2: false, auth: ClientAuth::NotRequested, ident: Ident::None, no_tls_config: true, ignore_order: false, origin: None, chop: 0 });
     }
     out
 }
@@ -375,7 +402,7 @@ pub fn property(tier: Tier) -> Property {
     let sec = Section::new(
         "tls-matrix",
         Config { hang_secs: 60, ..Default::default() },
-        "cases: the full 486-cell matrix client roots {issuing CA, other CA, none} x domain {URI host outside the SAN + domain_name naming the SAN, URI host in the SAN + domain_name naming something else, no domain_name + URI host in the SAN} x server ALPN {h2 = tonic-terminated TLS, none, http/1.1 = harness rustls terminator in front of a plain tonic server} x assume_http2 x server client-auth {none, required, optional} x client identity {none, from the client CA, from another CA} (pipe fragmentation pattern rotating; thorough: 3 patterns each), plus the tonic-terminated, otherwise passing cells repeated with ServerTlsConfig::ignore_client_order(true) (which must not influence authentication), plus https URI without any TLS configuration; real handshakes (ring) over in-memory pipes in virtual time through Endpoint::tls_config + connect_with_connector and Server::tls_config. Oracle: boolean reference of the cell (must-pass / must-fail / open for http/1.1+assume_http2 and optional-auth+foreign certificate); on failure no handler invocation, client-side verification failures surface at connect, the first bytes the client ever sends are a TLS handshake record, handlers see the verified client chain (None when optional and absent). All cells count as non-trivial.",
+        "cases: the full 486-cell matrix client roots {issuing CA, other CA, none} x domain {URI host outside the SAN + domain_name naming the SAN, URI host in the SAN + domain_name naming something else, no domain_name + URI host in the SAN} x server ALPN {h2 = tonic-terminated TLS, none, http/1.1 = harness rustls terminator in front of a plain tonic server} x assume_http2 x server client-auth {none, required, optional} x client identity {none, from the client CA, from another CA} (pipe fragmentation pattern rotating; thorough: 3 patterns each), plus the tonic-terminated, otherwise passing cells repeated with ServerTlsConfig::ignore_client_order(true) (which must not influence authentication), plus Endpoint::origin(..) overrides set before tls_config (origin host outside / inside the SAN against a URI host inside / outside it: the URI host decides), plus https URI without any TLS configuration; real handshakes (ring) over in-memory pipes in virtual time through Endpoint::tls_config + connect_with_connector and Server::tls_config. Oracle: boolean reference of the cell (must-pass / must-fail / open for http/1.1+assume_http2 and optional-auth+foreign certificate); on failure no handler invocation, client-side verification failures surface at connect, the first bytes the client ever sends are a TLS handshake record, handlers see the verified client chain (None when optional and absent). All cells count as non-trivial.",
         cases(tier),
         |c: &Case| format!("{c:?}"),
         body,
